@@ -299,6 +299,32 @@ def fixed_deflate(tokens):
     b.huff(0, 7)
     return b.done()
 
+_LBASE = [3,4,5,6,7,8,9,10,11,13,15,17,19,23,27,31,35,43,51,59,67,83,99,115,131,163,195,227,258]
+_LEXTRA = [0,0,0,0,0,0,0,0,1,1,1,1,2,2,2,2,3,3,3,3,4,4,4,4,5,5,5,5,0]
+_DBASE = [1,2,3,4,5,7,9,13,17,25,33,49,65,97,129,193,257,385,513,769,1025,1537,2049,3073,4097,6145,8193,12289,16385,24577]
+_DEXTRA = [0,0,0,0,1,1,2,2,3,3,4,4,5,5,6,6,7,7,8,8,9,9,10,10,11,11,12,12,13,13]
+def fixed_deflate_any(tokens):
+    """one fixed-Huffman deflate block; tokens: ('L', byte) | ('M', length 3..258, distance 1..32768)"""
+    b = BitsLSB(); b.bits(1, 1); b.bits(1, 2)
+    for t in tokens:
+        if t[0] == "L":
+            v = t[1]
+            if v < 144: b.huff(0x30 + v, 8)
+            else: b.huff(0x190 + v - 144, 9)
+        else:
+            _, ln, dist = t
+            li = max(i for i in range(29) if _LBASE[i] <= ln and (i < 28 or ln == 258))
+            if ln == 258: li = 28
+            sym = 257 + li
+            if sym < 280: b.huff(sym - 256, 7)
+            else: b.huff(0xC0 + sym - 280, 8)
+            if _LEXTRA[li]: b.bits(ln - _LBASE[li], _LEXTRA[li])
+            di = max(i for i in range(30) if _DBASE[i] <= dist)
+            b.huff(di, 5)
+            if _DEXTRA[di]: b.bits(dist - _DBASE[di], _DEXTRA[di])
+    b.huff(0, 7)
+    return b.done()
+
 class BitsMSB:
     def __init__(s): s.out = bytearray(); s.acc = 0; s.n = 0
     def bits(s, v, n):
@@ -651,6 +677,28 @@ def targeted_cases(rng, n):
         chm += bytes(6000)        # (bytes after the LZX stream: a decoder that runs on has input to nibble at, one bit per reset interval)
         sc = scenario.Scn().file("in0.chm", chm).op("chm_new").op("chm_open", "h1", "in0.chm").op("chm_extract", "h1", names.index(b"/a.txt"), "out0").op("chm_extract", "h1", names.index(b"/b.txt"), "out1").op("chm_extract", "h1", names.index(b"/a.txt"), "out2").op("chm_close", "h1")
         out.append(Case("hostile:chm-far-offset-after-extract", "chm", sc))
+    # (22) MSZIP: a second frame whose long matches reach almost a whole frame back (distance 32768 and a few less: the source lies just
+    #      ahead of the destination in the window) - legal deflate that compressors hardly ever emit
+    r22 = random.Random(22)
+    for i, toks in enumerate([[("M", 20, 32768), ("L", 65), ("M", 258, 32600), ("L", 66)], [("L", 67), ("M", 258, 32768), ("M", 100, 32767)], [("M", 13, 32757), ("M", 258, 32512)]][:max(2, n // 2)]):
+        first = bytes(r22.randrange(256) for _ in range(32768)); co = zlib.compressobj(6, zlib.DEFLATED, -15)
+        blk1 = b"CK" + co.compress(first) + co.flush()
+        win = bytearray(first); pos = 0
+        for t in toks:
+            if t[0] == "L": win[pos] = t[1]; pos += 1
+            else:
+                for _ in range(t[1]): win[pos] = win[(pos - t[2]) % 32768]; pos += 1
+        data = first + bytes(win[:pos])
+        cab = cabfmt.build_cab([(1, [(blk1, 32768), (b"CK" + fixed_deflate_any(toks), pos)])], [(b"far.bin", len(data), 0, 0, 0x5A21, 0x6C43, 0x20)])
+        sc = scenario.Scn().file("in0.cab", cab); cab_ops(sc, 1, 4); out.append(Case("gen:mszip-far-match", "cab", sc, True, [data]))
+    # (21) a SpanInfo entry whose declared length is not 8 (64-bit values whose low 32 bits are small included), no reset table to fall back on
+    r21 = random.Random(21)
+    for i, dl in enumerate([(1 << 32) + 4, 1 << 32, 7, 16, (1 << 32) + 8, 0][:max(3, n)]):
+        chm, exp = chmfmt.build([(b"/index.html", b"<html>hi</html>")], [(b"/a.txt", 100), (b"/b.txt", 50)], r21, chunk_size=4096, wbits=16, reset_frames=2, with_rtable=False, version=3,
+                                sys_len={chmfmt.SPANINFO: dl})
+        names = sorted(exp.keys(), key=chmfmt.sort_key)
+        sc = scenario.Scn().file("in0.chm", chm).op("chm_new").op("chm_open", "h1", "in0.chm").op("chm_extract", "h1", names.index(b"/a.txt"), "out0").op("chm_extract", "h1", names.index(b"/b.txt"), "out1").op("chm_close", "h1")
+        out.append(Case("hostile:chm-spaninfo-length", "chm", sc))
     # (20) the last member of a folder declared longer than the folder's blocks inflate to (still inside blocks x 32K), under the four
     #      FIXMSZIP x SALVAGE settings: never OK with fewer bytes than declared outside salvage mode
     r20 = random.Random(20)
